@@ -189,7 +189,7 @@ Proof. apply monitor_accepts_model. Qed.
 (* reachable states carry the invariant, together with the monitor state of the trace so far *)
 Lemma reach S ops :
   exists m R W, mrun (minit S) (run (init S) ops) = Some m /\ Inv S (final (init S) ops) m R W.
-Proof. apply run_inv. apply inv_init. Qed.
+Proof. exact (run_inv S ops _ _ _ _ (inv_init S)). Qed.
 
 (* in a model run nothing is in flight between two steps as far as the FIFO content goes *)
 Lemma inv_quiet S st m R W : Inv S st m R W -> pc m = [] /\ cc m = [].
@@ -197,4 +197,174 @@ Proof.
   intros I. destr_all st m. destruct I. unfold pp_inv, cp_inv, pc, cc in *. cbn in *. split.
   - destruct pp0; [subst; destruct pdone0; auto| | |]; destruct i_pp as (_ & -> & _); auto.
   - destruct cp0; [destruct i_cp as (_ & ->)| | |]; auto; destruct i_cp as (_ & -> & _); auto.
+Qed.
+
+Lemma skipn_app_exact (A : Type) (l1 l2 : list A) : skipn (length l1) (l1 ++ l2) = l2.
+Proof. induction l1; cbn; auto. Qed.
+
+(* state of the abstract FIFO in a model run = the monitor's queue *)
+Lemma model_fifo S ops m :
+  mrun (minit S) (run (init S) ops) = Some m ->
+  pushed (run (init S) ops) = popped (run (init S) ops) ++ mq m /\
+  pending (run (init S) ops) = mq m /\ length (mq m) <= S.
+Proof.
+  intros Hm. destruct (reach S ops) as (m' & R & W & Hm' & I).
+  rewrite Hm in Hm'. inversion Hm'; subst m'.
+  destruct (inv_quiet _ _ _ _ _ I) as [Hp Hc]. destruct (G_run _ _ _ Hm) as [_ _ Hb Hl _ _].
+  rewrite Hp, Hc, app_nil_r in Hb. cbn in Hb. repeat split; auto.
+  unfold pending. rewrite Hb. apply skipn_app_exact.
+Qed.
+
+Theorem popped_prefix_of_pushed S ops :
+  exists q, pushed (run (init S) ops) = popped (run (init S) ops) ++ q /\
+            pending (run (init S) ops) = q /\ length q <= S.
+Proof.
+  destruct (reach S ops) as (m & R & W & Hm & I).
+  exists (mq m). apply model_fifo; auto.
+Qed.
+
+(* cutting a run at a step *)
+Lemma run_split : forall tr1 st ops e tr2,
+  run st ops = tr1 ++ e :: tr2 ->
+  exists ops1 o ops2, ops = ops1 ++ o :: ops2 /\ tr1 = run st ops1 /\
+                      e = (o, snd (step (final st ops1) o)) /\
+                      tr2 = run (fst (step (final st ops1) o)) ops2.
+Proof.
+  induction tr1 as [|x t IH]; intros st ops e tr2 H.
+  - destruct ops as [|o ops2]; cbn in H; [discriminate|].
+    destruct (step st o) as [s' r] eqn:E. inversion H; subst.
+    exists [], o, ops2. cbn. rewrite E. auto.
+  - destruct ops as [|o ops']; cbn in H; [discriminate|].
+    destruct (step st o) as [s' r] eqn:E. inversion H; subst.
+    destruct (IH _ _ _ _ H2) as (ops1 & o1 & ops2 & -> & -> & -> & ->).
+    exists (o :: ops1), o1, ops2. cbn. rewrite E. cbn. auto.
+Qed.
+
+(* a try_pop returns false only at its load of write_ptr_, and at that moment no pushed element is
+   pending *)
+Theorem pop_fails_only_when_empty S ops tr1 a tr2 :
+  run (init S) ops = tr1 ++ (OpC, Out a RFail) :: tr2 ->
+  (exists x, a = LdW x) /\ pending tr1 = [] /\ pushed tr1 = popped tr1.
+Proof.
+  intros H. destruct (run_split _ _ _ _ _ H) as (ops1 & o & ops2 & _ & -> & He & _).
+  inversion He as [[Ho Hr]]. subst o. clear He.
+  destruct (reach S ops1) as (m & R & W & Hm & I).
+  destruct (model_fifo S ops1 m Hm) as (Hb & Hp & _).
+  set (st := final (init S) ops1) in *. cbn in Hr. unfold step_c in Hr.
+  destruct I. unfold cp_inv in i_cp.
+  destruct (cp st) as [|r|r nxt|x nxt] eqn:Ec; cbn in Hr; try discriminate.
+  - destruct (Nat.eqb r (wr st)) eqn:E; cbn in Hr; [|discriminate].
+    inversion Hr; subst a. split; [eauto|].
+    destruct i_cp as (_ & _ & -> & _). apply Nat.eqb_eq in E. rewrite i_wr in E.
+    apply mod_inj_window in E; [|lia|lia].
+    assert (mq m = []) by (apply length_zero_iff_nil; lia).
+    rewrite Hp, Hb, H0, app_nil_r. auto.
+  - destruct (nth_error (data st) r); cbn in Hr; discriminate.
+Qed.
+
+(* monitor facts used for the failing push *)
+Lemma consumer_steps_keep_mp tr : forall m m',
+  consumer_only tr -> mrun m tr = Some m' -> mp m' = mp m.
+Proof.
+  induction tr as [|[o r] t IH]; intros m m' Hc H; cbn in H.
+  - inversion H; auto.
+  - inversion Hc as [|? ? Ho Ht]; subst. cbn in Ho. subst o.
+    destruct (mstep m OpC r) as [[|tag] m1] eqn:Es; [|discriminate].
+    rewrite (IH _ _ Ht H). clear IH H.
+    destruct r as [a rt| |]; cbn in Es; try discriminate.
+    unfold c_start in Es.
+    destruct m as [mS0 mq0 mp0 [cin0 cempty0 chead0] k0]. cbn in Es.
+    destruct cin0; destruct chead0; destruct mq0; destruct a; cbn in Es;
+      repeat match type of Es with context[if ?b then _ else _] => destruct b eqn:? end;
+      cbn in Es; try discriminate;
+      destruct rt; cbn in Es;
+      repeat match type of Es with context[if ?b then _ else _] => destruct b eqn:? end;
+      cbn in Es; try discriminate; inversion Es; subst; reflexivity.
+Qed.
+
+Lemma push_fail_needs_pfull m v a m' :
+  pin (mp m) <> None -> mstep m (OpP v) (Out a RFail) = (Ok, m') -> pfull (mp m) = true.
+Proof.
+  intros Hp Hs. destruct m as [mS0 mq0 [pin0 pfull0 pdone0] mc0 k0]. cbn in *.
+  unfold p_start in Hs. cbn in Hs. destruct pin0 as [cur|]; [|congruence]. cbn in Hs.
+  destruct pfull0; [reflexivity|]. exfalso.
+  destruct a; cbn in Hs;
+    repeat match type of Hs with context[if ?b then _ else _] => destruct b eqn:? end;
+    cbn in Hs; discriminate.
+Qed.
+
+(* a try_push returns false only if the FIFO held S elements at the call's load of read_ptr_ *)
+Theorem push_fails_only_when_full S ops tr1 v x mid v' a tr2 :
+  run (init S) ops = tr1 ++ (OpP v, Out (LdR x) RNone) :: mid ++ (OpP v', Out a RFail) :: tr2 ->
+  consumer_only mid ->
+  length (pending tr1) = S /\ length (pushed tr1) = length (popped tr1) + S.
+Proof.
+  intros H Hmid.
+  pose proof (monitor_accepts_model S ops) as Hacc. apply monitor_from_mrun in Hacc.
+  destruct Hacc as [mf Hacc]. rewrite H in Hacc.
+  destruct (run_split _ _ _ _ _ H) as (ops1 & o & ops2 & _ & -> & He & _).
+  inversion He as [[Ho Hr]]. subst o. clear He.
+  destruct (reach S ops1) as (m1 & R & W & Hm1 & I).
+  destruct (model_fifo S ops1 m1 Hm1) as (Hb & Hp & _).
+  set (tr1 := run (init S) ops1) in *. set (st := final (init S) ops1) in *.
+  (* the producer was idle *)
+  assert (Hidle : pin (mp m1) = None).
+  { destruct I. unfold pp_inv in i_pp. cbn in Hr. unfold step_p in Hr.
+    destruct (pp st) as [|v1 r|v1 w nxt|v1 nxt]; auto; exfalso.
+    - destruct (Nat.eqb ((wr st + 1) mod len st) r); cbn in Hr; discriminate.
+    - destruct (Nat.ltb w (length (data st))); cbn in Hr; discriminate.
+    - cbn in Hr. discriminate. }
+  rewrite mrun_app, Hm1 in Hacc. cbn [mrun] in Hacc.
+  destruct (mstep m1 (OpP v) (Out (LdR x) RNone)) as [[|tag] m2] eqn:E2; [|discriminate].
+  rewrite mrun_app in Hacc.
+  destruct (mrun m2 mid) as [m3|] eqn:E3; [|discriminate]. cbn [mrun] in Hacc.
+  destruct (mstep m3 (OpP v') (Out a RFail)) as [[|tag] m4] eqn:E4; [|discriminate].
+  assert (Hmp2 : mp m2 = mkp (Some v) (Nat.eqb (length (mq m1)) (mS m1)) false).
+  { destruct m1 as [mS0 mq0 [pin0 pfull0 pdone0] mc0 k0]. cbn in *. subst pin0.
+    cbn in E2. inversion E2; subst. reflexivity. }
+  pose proof (consumer_steps_keep_mp _ _ _ Hmid E3) as Hmp3.
+  assert (Hfull : pfull (mp m3) = true).
+  { eapply push_fail_needs_pfull; eauto. rewrite Hmp3, Hmp2. cbn. discriminate. }
+  rewrite Hmp3, Hmp2 in Hfull. cbn in Hfull. apply Nat.eqb_eq in Hfull.
+  destruct I. rewrite i_mS in Hfull.
+  rewrite Hp, Hb, app_length. split; lia.
+Qed.
+
+(* ---- data race freedom, stated on reachable states: the two non-atomic accesses are never
+   enabled on the same slot at the same time, and both slots are inside data_ ---- *)
+Theorem data_race_free S ops v w nxt r nxt' :
+  pp (final (init S) ops) = PGotW v w nxt ->
+  cp (final (init S) ops) = CGotW r nxt' ->
+  w <> r /\ w < S + 1 /\ r < S + 1.
+Proof.
+  intros Hp Hc. destruct (reach S ops) as (m & R & W & _ & I). destruct I.
+  unfold pp_inv in i_pp. unfold cp_inv in i_cp. rewrite Hp in i_pp. rewrite Hc in i_cp.
+  destruct i_pp as (_ & _ & -> & _ & ?). destruct i_cp as (_ & _ & -> & _ & ?).
+  repeat split; try (apply Nat.mod_upper_bound; lia).
+  apply not_eq_sym. apply mod_neq_window; lia.
+Qed.
+
+(* slots are always inside data_: the model never faults *)
+Theorem model_never_faults S ops : Forall (fun e => snd e <> OFault) (run (init S) ops).
+Proof.
+  pose proof (monitor_accepts_model S ops) as H. apply monitor_from_mrun in H. destruct H as [m H].
+  revert H. generalize (minit S). generalize (run (init S) ops). clear.
+  induction l as [|[o r] t IH]; intros m0 H; constructor.
+  - cbn. intros ->. cbn in H. discriminate.
+  - cbn in H. destruct (mstep m0 o r) as [[|tag] m1]; [eauto|discriminate].
+Qed.
+
+(* the representation invariant of DESIGN.md 12.3 in terms of the observable trace: ghost counters
+   R <= W <= R + S, the pointers are the counters modulo S + 1, and the pending elements are
+   data_[ R .. W ) (indices modulo S + 1) *)
+Theorem ring_represents_fifo S ops :
+  let st := final (init S) ops in
+  let q := pending (run (init S) ops) in
+  exists R W, R <= W <= R + S /\ rd st = R mod (S + 1) /\ wr st = W mod (S + 1) /\
+              length q = W - R /\
+              forall k, k < W - R -> nth k q 0%N = nth ((R + k) mod (S + 1)) (data st) 0%N.
+Proof.
+  cbn zeta. destruct (reach S ops) as (m & R & W & Hm & I).
+  destruct (model_fifo S ops m Hm) as (_ & -> & _). destruct I.
+  exists R, W. repeat split; auto; lia.
 Qed.
